@@ -38,6 +38,26 @@ def leaf_variants(v):
             ("ext", {"t": "ext", "name": "ext_k"})]
 
 
+def pyval(op, x, y):
+    """value of the twin expression (None when it is undefined or does not fit a small buffer offset)"""
+    try:
+        if op == "neg": return -x
+        if op == "bnot": return None
+        if op == "+": return x + y
+        if op == "-": return x - y
+        if op == "*": return x * y
+        if op == "\\": return None if y == 0 else int(x / y)
+        if op == "%": return None if y == 0 else x - y * int(x / y)
+        if op == "&": return x & y
+        if op == "|": return x | y
+        if op == "^": return x ^ y
+        if op == "<<": return None if y < 0 or y >= 64 else x << y
+        if op == ">>": return None if y < 0 else (x >> y if y < 64 else 0)
+    except Exception:
+        return None
+    return None
+
+
 def c12(res, tier, seed):
     r = yv.rng(seed, "c12")
     wd = yv.workdir("C12")
@@ -71,9 +91,15 @@ def c12(res, tier, seed):
             if op == "neg": E = {"t": "neg", "x": lx}
             elif op == "bnot": E = {"t": "bnot", "x": {"t": "bnot", "x": lx}} if r.random() < 0.5 else {"t": "bin", "op": "&", "l": {"t": "bnot", "x": lx}, "r": I(7)}
             else: E = {"t": "bin", "op": op, "l": lx, "r": I(y)}
-            for pname, ast in (positions(E) if tier != "quick" else r.sample(positions(E), 3)):
+            # the value of E, to plant the string exactly there (the shortcut taken for `$a at <constant>` keeps only matches at the
+            # offset the compiler computed: a wrong compile-time value shows only when the string really is at the right one)
+            vE = pyval(op, x, y)
+            planted = [b"." * vE + b"#1#..", b"." * vE + b"#1#" + b"." * 5 + b"#1#"] if vE is not None and 0 <= vE <= 48 else []
+            ps = positions(E)
+            chosen = ps if tier != "quick" else ([ps[0]] + r.sample(ps[1:], 2) if planted else r.sample(ps, 3))
+            for pname, ast in chosen:
                 txt = cg.show(ast)[0]
-                bufs = fixed + r.sample(buf_pool, 3)
+                bufs = fixed + planted + r.sample(buf_pool, 3)
                 if lname != "ext":
                     groups.append({"src": cond.rule_text(txt), "bufs": bufs, "pre": cond.EXT_DEFS + ["cdefine 0 i ext_k %d" % x]})
                     metas.append((txt + "  [leaf=%s]" % lname, ast, dict(cond.EXT_ENV, ext_k={"ty": "i", "v": x})))
